@@ -43,6 +43,9 @@ def run(ctx):
     from . import c14
     c14.r144(ctx, api, wr)
     from . import callsigs as _cs
+    from . import findings3 as _f3
+    _f3.partition_text(ctx, 'R8.13')
+    _f3.append_layouts(ctx, 'R8.14')
     _cs.general_rules(ctx, 'R8', ['writer.write', 'writer.write_multi', 'writer.partition_on_columns', 'writer.make_metadata', 'api.paths_to_cats', 'api._path_to_cats', 'core.read_row_group', 'api.filter_row_groups', 'api.ParquetFile.write_row_groups', 'api.ParquetFile.__init__'])
 
 
@@ -130,11 +133,14 @@ def r83(ctx, wr, api, ut, core):
     ctx.ob('R8.3', 'util.join_path:segments-joined-by-slash', "'/'.join(" in src(jp), '', ut.loc(jp))
     p2c = api.func('_path_to_cats')
     s = src(p2c)
-    ctx.ob('R8.3', 'api._path_to_cats:hive-splits-on-slash-then-equals', "p.split('=') for p in path.split('/') if '=' in p" in s, '', api.loc(p2c))
+    # (splitting each level at '=' or the shared pattern of ex_from_sep - checked below to find the same pairs)
+    ctx.ob('R8.3', 'api._path_to_cats:hive-splits-on-slash-then-equals',
+           "p.split('=') for p in path.split('/') if '=' in p" in s or ('hivehits = s.findall(path)' in s and "s = ex_from_sep('/')" in s), '', api.loc(p2c))
     ctx.ob('R8.3', 'api._path_to_cats:drill-names-levels-dir<i>', "(f'dir{i}', v) for i, v in enumerate(path_parts)" in s, '', api.loc(p2c))
     rr = core.func('read_row_group')
     s2 = src(rr)
-    ctx.ob('R8.3', 'core.read_row_group:hive-splits-on-slash-then-equals', "s.split('=') for s in rg.columns[0].file_path.split('/')" in s2, '', core.loc(rr))
+    ctx.ob('R8.3', 'core.read_row_group:hive-splits-on-slash-then-equals',
+           "s.split('=') for s in rg.columns[0].file_path.split('/')" in s2 or "ex_from_sep('/').findall(rg.columns[0].file_path)" in s2, '', core.loc(rr))
     ctx.ob('R8.3', 'core.read_row_group:drill-names-levels-dir<i>-over-the-directory-part',
            "('dir%i' % i, v) for i, v in enumerate(rg.columns[0].file_path.split('/')[:-1])" in s2, '', core.loc(rr))
     pc = api.func('paths_to_cats')
